@@ -336,6 +336,9 @@ NOP_STMTS = [
     ("insert into t2 values (%s)", (8,), set()),
     ("select %s", (1,), {3}),
     ("create table stage1 (a int)", None, set()),
+    # whitespace-sensitive text: not matching means executed from the text exactly as written
+    ("select 'two  spaces\there' as c -- a line comment\n , a from t1", None, set()),
+    ("select %s as c,\n\n  a from t1", ("x   y\n z",), set()),
 ]
 
 
@@ -393,19 +396,19 @@ def _nop(si: int, mask: int, as_dict: bool, prior: int = 0) -> bool:
 @ob(
     "C16.nop_regexes_only_noop_matches",
     encodes=["fakesnow.cursor.FakeSnowflakeCursor.execute (nop_regexes short-circuit)", "fakesnow.instance.FakeSnow.connect (option plumbing)"],
-    bounds="every subset of 5 patterns (anchored, unanchored, with \\s, with $, reaching into a substituted parameter) x 10 statements "
+    bounds="every subset of 5 patterns (anchored, unanchored, with \\s, with $, reaching into a substituted parameter) x 12 statements "
     "(matching in a different letter case, matching only after parameter substitution, containing pattern text away from the start, "
-    "not matching) x tuple/dict cursor x four session prefixes (fresh; COMMENT ON + ALTER SET COMMENT earlier, in both orders; SET + CLUSTER BY earlier)",
+    "not matching, not matching and whitespace-sensitive: runs of blanks, tabs and newlines in literals and bound values, a line comment before more SQL) x tuple/dict cursor x four session prefixes (fresh; COMMENT ON + ALTER SET COMMENT earlier, in both orders; SET + CLUSTER BY earlier)",
     timeout=(300, 600),
     stubs=["K1/K2 vf.duckstub.Engine (statements unknown to the engine such as CALL raise a parser/catalog error there)"],
-    shards=(10, 10),
+    shards=(12, 12),
 )
 def nop_regexes(si: int, mask: int, as_dict: bool, prior: int) -> bool:
     """
-    pre: 0 <= si < 10 and 0 <= mask < 32 and 0 <= prior <= 3 and (SHARD < 0 or si == SHARD)
+    pre: 0 <= si < 12 and 0 <= mask < 32 and 0 <= prior <= 3 and (SHARD < 0 or si == SHARD)
     post: _
     """
-    return done(fast.native(_nop, fast.pick(si, 10), fast.pick(mask, 32), bool(fast.pick(as_dict, 2)), fast.pick(prior, 4)))
+    return done(fast.native(_nop, fast.pick(si, 12), fast.pick(mask, 32), bool(fast.pick(as_dict, 2)), fast.pick(prior, 4)))
 
 
 # ------------------------------------------------------------------ pattern SETS: each pattern is matched on its own
